@@ -368,3 +368,15 @@ fn add_response_to_resources(
         }
     }
 }
+/// `add_response_to_resources`, exported for the verification harness
+#[cfg(simple_dns_verif)]
+pub fn verif_add_response_to_resources(
+    packet: Packet,
+    service_name: &Name<'_>,
+    full_name: &Name<'_>,
+    owned_resources: &mut ResourceRecordManager,
+    on_discovery: &mut Option<std::sync::mpsc::Sender<InstanceInformation>>,
+) {
+    add_response_to_resources(packet, service_name, full_name, owned_resources, on_discovery)
+}
+
